@@ -57,6 +57,8 @@ def run(ck):
     special('st := import("st")\nst.counter.n += st.step\nout := st.counter.n\n', statemod=True)
     special('st := import("st")\nst.counter.n += st.step\nst.counter.n += st.step\nst2 := import("st")\nout := [st.counter.n, st2.counter.n, len(st.log)]\n', statemod=True,
             cell="stateful-builtin-module-imported-twice")
+    special('st := import("st")\nout := [st.flags[0] == true, st.flags[1] == false, st.flags[0] ? 1 : 2, st.flags[2] == undefined, st.flags == [true, false, undefined], st.step == 1]\n',
+            statemod=True)
     byid = {p["id"]: p for p in progs}
     cases = [{"id": p["id"], "src": p["src"], "inputs": p.get("inputs", []), "weird": p.get("weird", ""), "statemod": bool(p.get("statemod")),
               "mods": p.get("mods", []), "stdlib": bool(p.get("stdlib"))} for p in progs]
@@ -98,6 +100,14 @@ def run(ck):
                 ck.violation("gob-second-decode", "the same encoding decoded a second time (same module map) behaves differently:\n%s\nfirst:  %s\nsecond: %s" % (
                     p["src"], json.dumps(cc)[:500], json.dumps(o["C2"])[:500]), {"program": p, "C": cc, "C2": o["C2"]})
                 continue
+            for tag, what in (("D", "the bytecode Encode was called on (not de-duplicated before)"), ("D2", "the second encoding of the same bytecode, decoded"),
+                              ("E", "the encoding decoded without the embedder's module map")):
+                if tag in o and o[tag].get("k") not in (None,) and key(o[tag]) != key(a):
+                    ck.violation("gob-" + tag, "%s behaves differently from the compiled program:\n%s\ncompiled: %s\n%s: %s" % (
+                        what, p["src"][:1500], json.dumps(a)[:400], tag, json.dumps(o[tag])[:400]), {"program": p, "A": a, tag: o[tag]})
+                    break
+            else:
+                pass
             if key(b) != key(cc):
                 ck.violation("gob-behaviour", "bytecode read back from its encoding behaves differently:\n%s\nbefore: %s\nafter:  %s" % (
                     p["src"], json.dumps(b)[:500], json.dumps(cc)[:500]), {"program": p, "B": b, "C": cc})
